@@ -4,7 +4,7 @@ from __future__ import annotations
 import random
 
 from .. import gen, model, sem
-from ..snapshot import CLASS_NAMES, DerivationWrong, build, build_case, pg_from_json, pg_to_json, snap
+from ..snapshot import CLASS_NAMES, DerivationWrong, build, build_case, case_graph_for_sample, case_pg, pg_from_json, pg_to_json, snap
 from . import c09
 
 LEVEL = "exploration"
@@ -26,7 +26,7 @@ ANCHORS = [
     "stereomolgraph.graphs.scrg:StereoCondensedReactionGraph.relabel_atoms",
 ]
 REQUIRED_ANCHORS = ANCHORS
-REQUIRED = ["relabels", "kind:partial", "kind:total", "kind:cycle", "kind:identity", "kind:empty", "with_isolated", "with_changes", "mode:copy", "mode:inplace", "followup_ops", "inverse_checked"]
+REQUIRED = ["relabels", "kind:partial", "kind:total", "kind:cycle", "kind:identity", "kind:empty", "with_isolated", "with_changes", "mode:copy", "mode:inplace", "followup_ops", "inverse_checked", "scale_cases"]
 KINDS = ("total", "partial", "cycle", "identity", "empty", "partial", "total", "swap")
 
 
@@ -60,12 +60,23 @@ def gen_cases(ctx):
         kind = KINDS[(i // 4) % len(KINDS)]
         m = make_mapping(rng, pg["atoms"], kind)
         yield {"cls": cls, "pg": pg_to_json(pg), "kind": kind, "mapping": [[a, b] for a, b in m.items()], "copy": (i // 32) % 2 == 0, "queried_first": rng.random() < 0.4, "bseed": rng.randrange(1 << 30)}
+    for k, nsz, cls, seed in gen.scale_specs(ctx, rng):
+        yield {"cls": cls, "scale": nsz, "gseed": seed, "kind": ("total", "partial", "cycle", "swap", "partial")[k % 5], "copy": k % 2 == 0, "queried_first": False, "bseed": seed // 3}
 
 
 def check_case(ctx, case):
-    pg = pg_from_json(case["pg"])
+    pg = case_pg(case)
     cls, kind, copy = case["cls"], case["kind"], case["copy"]
-    m = {a: b for a, b in case["mapping"]}
+    if "scale" in case:
+        ctx.count("scale_cases")
+        if kind == "partial":  # the generic pool is too small for thousands of atoms
+            sub = random.Random(case["bseed"] + 6).sample(sorted(pg["atoms"]), len(pg["atoms"]) // 3)
+            top = max(pg["atoms"]) + 10
+            m = {a: top + i for i, a in enumerate(sub)}
+        else:
+            m = make_mapping(random.Random(case["bseed"] + 5), pg["atoms"], kind)
+    else:
+        m = {a: b for a, b in case["mapping"]}
     rng = random.Random(case["bseed"])
     try:
         g, via = build_case(pg, case["bseed"])
@@ -189,7 +200,7 @@ def check_case(ctx, case):
         sub == sub
     except Exception as e:  # noqa: BLE001
         ctx.violate(f"C11/unusable/{cls}/subgraph-or-copy-raises:{type(e).__name__}/{mode}/{feat}", f"subgraph/copy after relabel raised {e!r}", case)
-    ctx.sample({"class": cls, "kind": kind, "mode": mode, "mapping": case["mapping"][:6], "graph": case["pg"]})
+    ctx.sample({"class": cls, "kind": kind, "mode": mode, "mapping": case.get("mapping", [])[:6], "graph": case_graph_for_sample(case)})
 
 
 def _battery(ctx, h, cls, case, uni, key):
